@@ -124,7 +124,7 @@ def check_tables(ctx, db, rule='R-CLONE.table'):
                         th = iff.child('then')
                         dl = [x for x in th.walk() if x.k == 'CXXMemberCallExpr' and (x.callee or '').endswith('::del') and lvalue_key(flow._strip_casts(x.args[0])) == p0]
                         gsl = next((x for x in f.walk() if x.k == 'CXXMemberCallExpr' and (x.callee or '').endswith('::get_slot')), None)
-                        ok = bool(dl) and any(x.k == 'ReturnStmt' and x.id > dl[0].id for x in th.walk()) and gsl is not None and iff.id < gsl.id
+                        ok = bool(dl) and any(x.k == 'ReturnStmt' and x.pos > dl[0].pos for x in th.walk()) and gsl is not None and iff.pos < gsl.pos
                 ctx.check(ok, rule, 'table/insert/TagMap-identity-prologue', f.loc(), 'TagMap::set(k, k) deletes the key (identity mapping is the empty slot)',
                           'TagMap::set lost its `key == value -> del(key); return` prologue: an identity entry would be stored as an empty slot marker / an existing rule for the key survives')
     ctx.require('R-CLONE.table methods', n_funcs, 27)
@@ -183,12 +183,12 @@ def check_payload(ctx, db, rule='R-PAYLOAD'):
             loop = next((l for l in f.walk() if l.k == 'WhileStmt'), None)
             if loop is None:
                 raise AnalysisBroken('%s::del: re-insertion loop not found' % tname)
-            pre = [s for s in f.body.c if s is not None and s.id < loop.id]
+            pre = [s for s in f.body.c if s is not None and s.pos < loop.pos]
             body = loop.child('body')
             ok1 = _empties(pre, tname, spec)
             ctx.check(ok1, rule, '%s::del/empties-found-slot' % tname, f.loc(), 'the found slot is made empty before the cluster is re-inserted')
             gs = next((c for c in body.walk() if c.k == 'CXXMemberCallExpr' and (c.callee or '').endswith('::get_slot')), None)
-            before = [s for s in body.c if s is not None and gs is not None and s.id < gs.id and not any(x is gs for x in s.walk())]
+            before = [s for s in body.c if s is not None and gs is not None and s.pos < gs.pos and not any(x is gs for x in s.walk())]
             ok2 = gs is not None and _empties(before, tname, spec)
             ctx.check(ok2, rule, '%s::del/empties-moved-slot' % tname, loop.loc(), 'each moved item leaves an empty slot behind before its new slot is looked up')
             newvar = gs.parent if gs is not None and gs.parent.k == 'VarDecl' else None
@@ -267,7 +267,7 @@ def check_array(ctx, db, rule='R-ARRAY'):
             g = f.cfg
             grow = next((s for s in f.walk() if is_assign(s) and lvalue_key(s.child('lhs')) == 'this->items'), None)
             mm = next(iter(f.calls('memmove')), None)
-            ok = grow is not None and mm is not None and grow.id < mm.id and any(i.k == 'IfStmt' and _full_test(i.child('cond')) for i in grow.ancestors())
+            ok = grow is not None and mm is not None and grow.pos < mm.pos and any(i.k == 'IfStmt' and _full_test(i.child('cond')) for i in grow.ancestors())
             ctx.check(ok, rule, key + '/grow-before-shift', f.loc(), 'capacity is grown (when full) before the tail is shifted')
             r = clone.Renamer(f)
             ok2 = mm is not None and '((this->items + p0) + 1)' in mm.args[0].text(r) and mm.args[1].text(r).endswith('(this->items + p0)') and '(this->count - p0)' in mm.args[2].text(r)
@@ -288,7 +288,7 @@ def check_array(ctx, db, rule='R-ARRAY'):
         elif f.name == 'extend':
             es = next((c for c in f.calls() if (c.callee or '').endswith('ensure_slots')), None)
             cp = next(iter(f.calls('memcpy')), None)
-            ok = es is not None and cp is not None and es.id < cp.id and '(this->items + this->count)' in cp.args[0].text()
+            ok = es is not None and cp is not None and es.pos < cp.pos and '(this->items + this->count)' in cp.args[0].text()
             ctx.check(ok, rule, key + '/reserve-then-copy', f.loc(), 'extend reserves before copying to items + count')
     ctx.require('R-ARRAY distinct method bodies', n, 7)
 
@@ -350,14 +350,59 @@ def check_heap(ctx, db):
         return [e]
 
     def table(f, e, ks=range(0, 12)):
-        """{free variable: tuple of values for that variable = 0..11} over every definition of e; None if not evaluable"""
+        """{free variable: tuple of values for that variable = 0..11} over every definition of e; None if not evaluable.
+        Locals are followed through their definitions (`left = right - 1`, `right = 2j + 2`) down to one free parameter."""
+        def vals(x, name, k, depth=0):
+            """set of values of x when the free variable `name` is k"""
+            if depth > 6:
+                raise KeyError('depth')
+            loc = sorted({(y.n, y.d) for y in x.walk() if y.k == 'DeclRefExpr' and y.dk == 'local'})
+            if not loc:
+                return {ieval(x, {name: k})}
+            # substitute each local by each of its possible values
+            import itertools as _it
+            choices = []
+            for ln, ld in loc:
+                ref = next(y for y in x.walk() if y.k == 'DeclRefExpr' and y.dk == 'local' and y.d == ld)
+                vs = set()
+                for d_ in defs_of(f, ref):
+                    if d_ is ref or any(y.k == 'DeclRefExpr' and y.dk == 'local' and y.d == ld for y in d_.walk()):
+                        raise KeyError('self')
+                    vs |= vals(d_, name, k, depth + 1)
+                choices.append([(ln, v) for v in sorted(vs)])
+            out_ = set()
+            for combo in _it.product(*choices):
+                env = {name: k}
+                env.update(dict(combo))
+                out_.add(ieval(x, env))
+            return out_
         out = set()
         for d in defs_of(f, e):
+            frees = set()
+            def collect(x, depth=0):
+                for y in x.walk():
+                    if y.k == 'DeclRefExpr' and y.dk == 'param':
+                        frees.add(y.n)
+                    elif y.k == 'DeclRefExpr' and y.dk == 'local' and depth < 6:
+                        for d2 in defs_of(f, y):
+                            if d2 is not y and not any(z.k == 'DeclRefExpr' and z.dk == 'local' and z.d == y.d for z in d2.walk()):
+                                collect(d2, depth + 1)
+            collect(d)
             names = sorted({x.n for x in d.walk() if x.k == 'DeclRefExpr' and x.dk in ('local', 'param')})
-            if len(names) != 1:
-                return None
             try:
-                out.add((names[0], tuple(ieval(d, {names[0]: k}) for k in ks)))
+                if len(names) == 1 and (len(frees) != 1 or names[0] in frees):
+                    out.add((names[0], tuple(ieval(d, {names[0]: k}) for k in ks)))
+                    continue
+                if len(frees) != 1:
+                    return None
+                nm = sorted(frees)[0]
+                cols = []
+                for k in ks:
+                    v = vals(d, nm, k)
+                    if len(v) != 1:
+                        return None
+                    cols.append(next(iter(v)))
+                out.add((nm, tuple(cols)))
             except (AnalysisBroken, KeyError, OverflowError):
                 return None
         return out
@@ -476,7 +521,7 @@ def check_heap(ctx, db):
         if rng is None or trip is None:
             raise AnalysisBroken('heap_sort: extraction loop not summarised')
         d = lin_add(rng, top, -1)
-        ctx.check(d == {1: -1} and sw.id < calls[1].id, 'R-BOUND.inclusive', 'heap_sort/extracted-maximum-leaves-the-heap', calls[1].loc(), 'after items[0] <-> items[m] the heap is re-established over [0, m-1]: the slot that received the maximum is excluded',
+        ctx.check(d == {1: -1} and sw.pos < calls[1].pos, 'R-BOUND.inclusive', 'heap_sort/extracted-maximum-leaves-the-heap', calls[1].loc(), 'after items[0] <-> items[m] the heap is re-established over [0, m-1]: the slot that received the maximum is excluded',
                   'after the maximum is swapped into items[m] the sift range ends at m%+d: the just-placed maximum is pulled back into the heap' % d.get(1, 0) if set(d) <= {1} else 'sift range %s vs swapped index %s' % (rng, top))
         ok = top.get(LP.K) == -1 and not lin_add({k_: v for k_, v in top.items() if k_ != LP.K}, want_last, -1) and not lin_add(trip, want_last, -1)
         ctx.check(ok, 'R-LOOP', 'heap_sort/extraction-range', L1.loc(), 'extraction runs from the last index down to 1', 'iteration k swaps index %s, %s iterations' % (top, trip))
@@ -489,8 +534,11 @@ def check_heap(ctx, db):
             writes = [x for x in f.walk() if is_assign(x) and 'items[' in x.child('lhs').text()] + [c for c in f.walk() if c.k == 'CallExpr' and (c.callee or '').endswith('swap_values')]
             for v in f.walk():
                 if v.k == 'VarDecl' and v.child('init') is not None and 'items[' in v.child('init').text() and not re.search(r'int|long', (v.t or '').split('&')[0]) :
-                    later = [w for w in writes if w.id > v.id]
-                    used_after = any(x.k == 'DeclRefExpr' and x.n == v.n and later and x.id > later[0].id for x in f.walk())
+                    later = [w for w in writes if w.pos > v.pos]
+                    # a use counts as "after a store" when it comes after the whole storing statement (the right-hand side of the store itself is read before it)
+                    first_end = max((y.pos for y in later[0].walk()), default=-1) if later else -1
+                    in_loop_with_write = any(a.k in ('ForStmt', 'WhileStmt', 'DoStmt') and any(w_ in list(a.walk()) for w_ in later) and any(x.k == 'DeclRefExpr' and x.n == v.n for x in a.walk()) for a in f.walk())
+                    used_after = any(x.k == 'DeclRefExpr' and x.n == v.n and later and x.pos > first_end for x in f.walk()) or (bool(later) and in_loop_with_write)
                     if not (later and used_after):
                         continue
                     na += 1
